@@ -168,6 +168,13 @@ def planner_cases(draw, tier="quick"):
     return {"mdp": spec, "w": draw(st.sampled_from([0.1, 0.5, 1, 1.0, 2.0, 10]))}
 
 
+def planner_large_cases(tier):
+    """more than 100 state-action pairs, low entropy weights (the last sweeps only move a few entries)"""
+    from vpm.gen.mdp import large_mdp_specs
+    return st.tuples(large_mdp_specs("discounted", min_states=26, max_states=45, min_actions=4, max_actions=5, max_out=3, gammas=[0.9, 0.95, 0.8]),
+                     st.sampled_from([0.001, 0.003, 0.01, 0.01, 0.1, 1.0])).map(lambda t: {"mdp": t[0], "w": t[1]})
+
+
 def prop_planner(case, ctx):
     from msdm.algorithms.entregpolicyiteration import EntropyRegularizedPolicyIteration
     spec = case["mdp"]
@@ -224,4 +231,6 @@ PROPS = [
          doc="entropy_regularized_policy_iteration on tensors: soft Bellman relations and small-weight bracket"),
     Prop("planner", lambda tier: planner_cases(tier), prop_planner, quick=600, thorough=36000,
          doc="EntropyRegularizedPolicyIteration.plan_on on MDP specs with state-dependent action sets"),
+    Prop("planner_large", planner_large_cases, prop_planner, quick=120, thorough=6000,
+         doc="the same on MDPs with 26-45 states x 4-5 actions (>100 state-action pairs) at low entropy weights"),
 ]
